@@ -5,6 +5,7 @@ Property theorems only.
 import Bourse.Model.Env
 import Bourse.Props.C14
 import Bourse.Props.C15
+import Bourse.Lemmas.EnvInv
 
 namespace Bourse.Props.C08
 open Bourse
@@ -108,5 +109,92 @@ example :
     let r := e1.step (Xoro.seed 7)
     r.1.queue = [] ∧ r.1.market.time = 110 ∧ (r.1.market.books.map (·.trades.length)) = [1, 0] ∧
     r.1.tradeVols = [[5], [0]] := by decide
+
+/-! ### A whole simulation, seen from one asset, is a plain book history
+
+Not just one step: every environment operation is a (possibly empty) sequence of plain market
+operations, so the market of an environment after ANY sequence of submissions, queued
+cancellations / modifications, trading switches and steps is the market run on the concatenated
+plain operations, and (C14's projection law) each asset's book is a stand-alone book run on that
+asset's share of them. Every theorem about book histories (C01–C07, C12, C13) therefore speaks about
+every asset of every simulation. -/
+
+/-- The plain market operations one environment operation performs. -/
+def opMarketOps (e : MEnv) (g : Xoro) : MEnv.EOp → List Market.MOp
+  | .submit a sd vol tr p => [.on a (.create sd vol tr p)]
+  | .step =>
+    match Xoro.shuffle e.queue g with
+    | some (batch, _) => stepOps e.market.time e.stepSize batch
+    | none => []
+  | .trading on => [.trading on]
+  | .qcancel _ _ => []
+  | .qmodify _ _ _ _ => []
+
+theorem apply_market (e : MEnv) (g : Xoro) (op : MEnv.EOp) :
+    (e.apply g op).1.1.market = e.market.run (opMarketOps e g op) := by
+  cases op with
+  | submit a sd vol tr p =>
+    simp only [MEnv.apply, MEnv.placeOrder, opMarketOps, Market.run, List.foldl_cons, List.foldl_nil, Market.step,
+      Market.createOrder]
+    split <;> rfl
+  | qcancel a id => rfl
+  | qmodify a id p v => rfl
+  | step =>
+    simp only [MEnv.apply, MEnv.step, opMarketOps]
+    cases hs : Xoro.shuffle e.queue g with
+    | none => rfl
+    | some r =>
+      obtain ⟨batch, g'⟩ := r
+      exact step_is_replay e batch
+  | trading on => cases on <;> rfl
+
+/-- All plain market operations of a history of environment operations. -/
+def envMarketOps : MEnv × Xoro → List MEnv.EOp → List Market.MOp
+  | _, [] => []
+  | s, op :: rest => opMarketOps s.1 s.2 op ++ envMarketOps (s.1.apply s.2 op).1 rest
+
+theorem run_append (m : Market) (xs ys : List Market.MOp) : m.run (xs ++ ys) = (m.run xs).run ys := by
+  simp [Market.run, List.foldl_append]
+
+/-- **The market of an environment after any history** is the plain market run on the history's
+operations. -/
+theorem env_history_is_market_history (s : MEnv × Xoro) (ops : List MEnv.EOp) :
+    (MEnv.runOps s ops).1.market = s.1.market.run (envMarketOps s ops) := by
+  induction ops generalizing s with
+  | nil => rfl
+  | cons op rest ih =>
+    simp only [MEnv.runOps, envMarketOps]
+    rw [ih, run_append, apply_market]
+
+/-- **Each asset's book after any simulation history is a stand-alone book** created with that
+asset's tick size and run on that asset's share of the operations, at the same times. -/
+theorem env_history_is_book_history (t0 : Nat) (ticks : List Nat) (stepSize : Nat) (trading : Bool) (n : Nat) (g : Xoro)
+    (ops : List MEnv.EOp) (a : Nat) :
+    (MEnv.runOps (MEnv.new t0 ticks stepSize trading n, g) ops).1.market.books[a]? =
+      (ticks[a]?).map fun tk =>
+        (Book.new t0 tk trading).run ((envMarketOps (MEnv.new t0 ticks stepSize trading n, g) ops).filterMap (C14.project a)) := by
+  rw [env_history_is_market_history, C14.market_projection]
+  simp only [MEnv.new, Market.new, List.getElem?_map, Option.map_map]
+  rfl
+
+/-- **In every reachable state of a simulation every book satisfies the book invariant** (so all its
+published views equal the recomputation from its own orders, it reloads to itself, …). -/
+theorem env_books_invariant (t0 : Nat) (ticks : List Nat) (stepSize : Nat) (trading : Bool) (n : Nat) (g : Xoro)
+    (ht : ∀ t ∈ ticks, 0 < t) (ops : List MEnv.EOp) (hok : EnvRunOk (MEnv.new t0 ticks stepSize trading n, g) ops) :
+    ∀ b ∈ (MEnv.runOps (MEnv.new t0 ticks stepSize trading n, g) ops).1.market.books, Inv b :=
+  env_inv_reachable t0 ticks stepSize trading n g ht ops hok
+
+/-- Non-vacuity: the history of the earlier example (three submissions, a queued cancel, a queued
+modify, one step) as environment operations: the run satisfies `EnvRunOk` — so the theorems above
+apply — and asset 0's book is the stand-alone book of `env_history_is_book_history`. -/
+def exOps : List MEnv.EOp :=
+  [.submit 0 .ask 5 1 (some 10), .submit 1 .bid 4 2 (some 8), .submit 0 .bid 7 3 (some 10), .qcancel 1 0, .qmodify 0 0 (some 9) none, .step]
+
+example :
+    let s0 := (MEnv.new 10 [1, 2] 100 true 3, Xoro.seed 7)
+    ((MEnv.runOps s0 exOps).1.market.books.map fun b => (b.trades.length, b.t)) = [(1, 110), (0, 110)] ∧
+    (envMarketOps s0 exOps).length = 15 ∧
+    ((MEnv.runOps s0 exOps).1.market.books.map fun b => b.faulted) = [false, false] := by
+  decide
 
 end Bourse.Props.C08
